@@ -249,6 +249,11 @@ impl<'a> Parser<'a> {
                     }
                 }
                 Some(_) => {
+                    // Every member after the first must be preceded by a comma
+                    if !object.is_empty() && !trailing_comma {
+                        return Err(self.traceback(ParseError::InvalidToken));
+                    }
+
                     trailing_comma = false;
                     let string_start = self.next()?;
                     quiet_assert(
